@@ -5,6 +5,7 @@
 package sim
 
 import (
+	"regexp"
 	"crypto/ecdsa"
 	"crypto/sha256"
 	"encoding/hex"
@@ -79,6 +80,8 @@ func Rigo(n int64) *big.Int { return new(big.Int).Mul(big.NewInt(n), Pow18) }
 
 // ParseAmount resolves an amount expression: decimal, "<n>R" (n RIGO), "2^255", "2^255-1", "2^256-1",
 // or expressions over the sender's balance: "bal", "bal-fee", "bal-fee+1", "bal-fee-1", "bal+1", "half".
+var powExpr = regexp.MustCompile(`^2\^(\d+)([+-]\d+)?(R)?$`)
+
 func ParseAmount(s string, bal, fee *big.Int) *big.Int {
 	switch s {
 	case "", "0":
@@ -101,6 +104,23 @@ func ParseAmount(s string, bal, fee *big.Int) *big.Int {
 		return nonneg(new(big.Int).Add(new(big.Int).Sub(bal, fee), big.NewInt(1)))
 	case "bal-fee-1":
 		return nonneg(new(big.Int).Sub(new(big.Int).Sub(bal, fee), big.NewInt(1)))
+	}
+	if s == "maxR" { // the largest multiple of 10^18 below 2^256
+		m := new(big.Int).Sub(two256, big.NewInt(1))
+		return m.Sub(m, new(big.Int).Mod(m, Pow18))
+	}
+	if m := powExpr.FindStringSubmatch(s); m != nil { // 2^N, 2^N-K, 2^N+K, each optionally followed by R (x 10^18)
+		var n, k int64
+		fmt.Sscanf(m[1], "%d", &n)
+		v := new(big.Int).Lsh(big.NewInt(1), uint(n))
+		if m[2] != "" {
+			fmt.Sscanf(m[2], "%d", &k)
+			v.Add(v, big.NewInt(k))
+		}
+		if m[3] == "R" {
+			v.Mul(v, Pow18)
+		}
+		return v
 	}
 	if strings.HasSuffix(s, "R+1") {
 		var n int64
